@@ -2217,7 +2217,9 @@ class PrefetchDataset(Dataset):
         from lazy_dataset.parallel_utils import lazy_parallel_map
 
         if with_key:
-            iterable = self.keys()
+            # Note: PrefetchDataset has no keys. Use the keys of the frozen
+            # input dataset, where also the examples are taken from.
+            iterable = input_dataset.keys()
         else:
             iterable = range(len(self.input_dataset))
 
